@@ -19,7 +19,13 @@ R09.7  launcher selection is history independent: nothing reachable from
        table, or an object they alias
 R09.8  the number of ranks a command asks for is the number of slots / ranks,
        never an average of ranks over nodes or a number of distinct nodes; a
-       constant rank count goes with a host list which has one entry per rank
+       constant rank count goes with a host list which has one entry per rank;
+       a total rank count goes with a host file which carries the ranks per
+       node (or with another value of the command which does)
+R09.9  the element of the can_launch answer which find_launcher reads as the
+       verdict is the element the launchers put the verdict in (by position)
+R09.10 files written for a command are opened in a truncating mode
+R09.11 a cursor which hands out rank ids advances by the number of ids used
 """
 
 import ast
@@ -953,11 +959,11 @@ def iter_source(f, it):
     return unparse(e), wrappers
 
 
-def find_launcher(prog, rep, rid):
+def launcher_loop(prog):
+    """(f, cfg, can_launch call, its cfg node, head of the loop over the
+    launchers) of ResourceManager.find_launcher"""
     f = prog.method(RM[0], RM[1], 'find_launcher')
-    rep.saw(f)
     g = cfg_of(f)
-    d = Deps(f.node)
     smap = I.stmt_node_map(g)
     calls = [c for c in calls_in(f.node) if isinstance(c.func, ast.Attribute)
              and c.func.attr == 'can_launch']
@@ -973,6 +979,105 @@ def find_launcher(prog, rep, rid):
     if head.kind != 'for':
         raise AnalysisError('UNRECOGNISED-IDIOM %s: launcher loop is not a '
                             'for loop' % f.where)
+    return f, g, call, cnode, head
+
+
+def _int_index(sub):
+    """i of x[i] with a constant integer index, else None"""
+    if not isinstance(sub, ast.Subscript):
+        return None
+    sl, sign = sub.slice, 1
+    if isinstance(sl, ast.UnaryOp) and isinstance(sl.op, ast.USub):
+        sl, sign = sl.operand, -1
+    if isinstance(sl, ast.Constant) and isinstance(sl.value, int) and \
+            not isinstance(sl.value, bool):
+        return sign * sl.value
+    return None
+
+
+def answer_tests(f, g, call, cnode, head):
+    """[(test cfg node, i)]: tests of the launcher loop which read element i
+    of the pair answered by `call` as a truth value.  The element is known by
+    binding, not by name: position in the unpacking target of the call (or of
+    the local which holds the whole answer), or a constant subscript."""
+    stmt = cnode.ast
+    elem, whole = {}, set()              # name -> i ; names of the pair itself
+
+    def bind(target, value_is_answer):
+        if not value_is_answer:
+            return
+        if isinstance(target, (ast.Tuple, ast.List)):
+            for i, t in enumerate(target.elts):
+                if isinstance(t, ast.Starred):
+                    break
+                if isinstance(t, ast.Name):
+                    elem[t.id] = i
+        elif isinstance(target, ast.Name):
+            whole.add(target.id)
+
+    if isinstance(stmt, ast.Assign) and stmt.value is call:
+        for t in stmt.targets:
+            bind(t, True)
+    body = g.loop_body[head.id]
+    # (names are only trusted when the loop binds them exactly once)
+    stores = {}
+    for n in walk(head.ast, nested=True):
+        if isinstance(n, ast.Name) and isinstance(n.ctx, (ast.Store, ast.Del)):
+            stores[n.id] = stores.get(n.id, 0) + 1
+    whole = {w for w in whole if stores.get(w) == 1}
+    def bind_value(t, v):
+        if isinstance(v, ast.Name) and v.id in whole:
+            bind(t, True)
+        elif isinstance(v, ast.Subscript) and _int_index(v) is not None \
+                and ((isinstance(v.value, ast.Name) and
+                      v.value.id in whole) or v.value is call):
+            if isinstance(t, ast.Name) and -2 <= _int_index(v) < 2:
+                elem[t.id] = _int_index(v) % 2
+        elif isinstance(t, (ast.Tuple, ast.List)) and \
+                isinstance(v, (ast.Tuple, ast.List)) and \
+                len(t.elts) == len(v.elts):
+            for t2, v2 in zip(t.elts, v.elts):
+                bind_value(t2, v2)
+
+    for n in walk(head.ast):
+        if isinstance(n, ast.Assign) and n is not stmt:
+            for t in n.targets:
+                bind_value(t, n.value)
+    elem = {k: i for k, i in elem.items() if stores.get(k) == 1}
+
+    def element(e):
+        if isinstance(e, ast.Name):
+            return elem.get(e.id)
+        i = _int_index(e)
+        if i is not None and -2 <= i < 2 and (e.value is call or (
+                isinstance(e.value, ast.Name) and e.value.id in whole)):
+            return i % 2
+        if isinstance(e, ast.Compare) and len(e.ops) == 1 and \
+                isinstance(e.ops[0], (ast.Is, ast.Eq)) \
+                and isinstance(e.comparators[0], ast.Constant) and \
+                e.comparators[0].value is True:
+            # (same polarity as the plain truth test; other comparisons stay
+            # unrecognised: R09.4 reads the T edge as `accepted`)
+            return element(e.left)
+        if isinstance(e, ast.Call) and dotted(e.func) == 'bool' and \
+                len(e.args) == 1:
+            return element(e.args[0])
+        return None
+
+    out = []
+    for n in g.nodes:
+        if n.kind != 'test' or n.id not in body:
+            continue
+        i = element(n.ast)
+        if i is not None:
+            out.append((n, i))
+    return out
+
+
+def find_launcher(prog, rep, rid):
+    f, g, call, cnode, head = launcher_loop(prog)
+    rep.saw(f)
+    d = Deps(f.node)
     src, wrappers = iter_source(f, head.ast.iter)
     breakers = [w for w in wrappers if w in ORDER_BREAKERS]
     if src not in ('self._launch_order', 'self._launchers') or \
@@ -999,25 +1104,8 @@ def find_launcher(prog, rep, rid):
               message='`%s` is not the launcher selected by the loop over the '
               'order' % short(recv, 40), loc=f.loc(call),
               history='every task is offered to the same launcher')
-    # the test on the answer
-    stmt = cnode.ast
-    tests = []
-    names = set()
-    if isinstance(stmt, ast.Assign) and stmt.value is call:
-        t = stmt.targets[0]
-        if isinstance(t, ast.Tuple) and t.elts and \
-                isinstance(t.elts[0], ast.Name):
-            names.add(t.elts[0].id)
-        elif isinstance(t, ast.Name):
-            names.add(t.id + '[0]')
-    body = g.loop_body[head.id]
-    for n in g.nodes:
-        if n.kind != 'test' or n.id not in body:
-            continue
-        u = unparse(n.ast)
-        if u in names or (isinstance(n.ast, ast.Subscript) and
-                          n.ast.value is call):
-            tests.append(n)
+    # the test on the answer (which element of the answer it reads is R09.9)
+    tests = [t for t, _ in answer_tests(f, g, call, cnode, head)]
     if not tests:
         raise AnalysisError('UNRECOGNISED-IDIOM %s: no truth test on the '
                             'answer of can_launch found' % f.where)
@@ -1057,6 +1145,164 @@ def find_launcher(prog, rep, rid):
                   history='a launcher accepts, the caller receives another '
                   'one (or none)')
     return src, head
+
+
+# ------------------------------------------------------------------------------
+# R09.9  the element of the answer which decides is the verdict
+#
+def answer_tuples(prog, K, f, depth=2):
+    """the 2-tuples which can_launch `f` may answer with ([ast.Tuple]), None
+    if some answer has a shape which is not a literal pair"""
+    out = []
+    for n in walk(f.node):
+        if not isinstance(n, ast.Return):
+            continue
+        v = n.value
+        if isinstance(v, ast.Tuple) and len(v.elts) == 2:
+            out.append(v)
+        elif isinstance(v, ast.Name):
+            vals = defs_of(f, v.id)
+            if not vals or not all(isinstance(x, ast.Tuple) and
+                                   len(x.elts) == 2 for x in vals):
+                return None
+            out += vals
+        elif isinstance(v, ast.Call) and depth > 0:
+            h = prog.resolve_call(f, v, K)
+            if h is None or h.cls is None:
+                return None
+            sub = answer_tuples(prog, K, h, depth - 1)
+            if sub is None:
+                return None
+            out += sub
+        else:
+            return None
+    return out
+
+
+def _elt_kind(e, f=None, _seen=()):
+    """'bool' / 'str' / None for an element of an answer"""
+    if isinstance(e, ast.Name) and f is not None and e.id not in _seen:
+        ks = {_elt_kind(v, f, _seen + (e.id,)) for v in defs_of(f, e.id)}
+        if len(ks) == 1 and _n_stores(f, e.id) == len(defs_of(f, e.id)):
+            return ks.pop()
+        return None
+    if isinstance(e, ast.IfExp):
+        ks = {_elt_kind(e.body, f, _seen), _elt_kind(e.orelse, f, _seen)}
+        return ks.pop() if len(ks) == 1 else None
+    if isinstance(e, ast.Constant):
+        if isinstance(e.value, bool):
+            return 'bool'
+        if isinstance(e.value, str):
+            return 'str'
+        return None
+    if isinstance(e, ast.JoinedStr):
+        return 'str'
+    if isinstance(e, ast.BinOp) and isinstance(e.op, (ast.Mod, ast.Add)) and \
+            _elt_kind(e.left) == 'str':
+        return 'str'
+    if isinstance(e, ast.Call) and isinstance(e.func, ast.Attribute) and \
+            e.func.attr in ('format', 'join') and \
+            _elt_kind(e.func.value) == 'str':
+        return 'str'
+    if isinstance(e, ast.Call) and dotted(e.func) == 'str':
+        return 'str'
+    if isinstance(e, ast.Compare) or (
+            isinstance(e, ast.UnaryOp) and isinstance(e.op, ast.Not)) or (
+            isinstance(e, ast.Call) and dotted(e.func) in ('bool', 'any',
+                                                           'all')):
+        return 'bool'
+    return None                     # (`a and b` has the type of its operands)
+
+
+def verdict_position(tuples, f=None):
+    """position of the verdict in the answers of one can_launch: 0 / 1, 'mixed'
+    when the answers disagree, None when no answer shows a bool or a str"""
+    votes = set()
+    for t in tuples:
+        k = [_elt_kind(x, f) for x in t.elts]
+        if k[0] == 'bool' and k[1] != 'bool':
+            votes.add(0)
+        elif k[1] == 'bool' and k[0] != 'bool':
+            votes.add(1)
+        elif k[0] == 'str' and k[1] is None:
+            votes.add(1)
+        elif k[1] == 'str' and k[0] is None:
+            votes.add(0)
+    if not votes:
+        return None
+    return votes.pop() if len(votes) == 1 else 'mixed'
+
+
+def r09_9(prog, rep, classes, rid='R09.9', minimum=10):
+    # (13 today: 12 can_launch methods and find_launcher; a can_launch whose
+    # answers are not literal pairs of a bool and a reason has no vote)
+    rep.rule(rid, 'the element of the can_launch answer which find_launcher '
+             'reads as the verdict is the element in which every launcher of '
+             'the factory table puts its verdict (the bool of the (bool, '
+             'reason) pair): agreement by position between the returned pairs '
+             'and the unpacking in find_launcher', minimum=minimum)
+    pos = {}
+    for K in classes:
+        f = prog.find_method(K, 'can_launch')
+        if f is None or is_stub(f):
+            continue
+        rep.saw(f)
+        ts = answer_tuples(prog, K, f)
+        p = verdict_position(ts, f) if ts else None
+        if p is not None:
+            pos[K] = (f, p, ts)
+    counts = {}
+    for K, (f, p, ts) in pos.items():
+        if p != 'mixed':
+            counts[p] = counts.get(p, 0) + 1
+    if not counts:
+        raise AnalysisError('UNRECOGNISED-IDIOM R09.9: no can_launch of the '
+                            'factory classes answers with a literal pair of a '
+                            'bool and a reason')
+    vpos = max(sorted(counts), key=lambda p: counts[p])
+    for K, (f, p, ts) in sorted(pos.items(), key=lambda kv: kv[0].name):
+        rep.check(p == vpos, rid, f,
+                  '%s.can_launch puts the verdict into element %d of its '
+                  'answer' % (K.name, vpos),
+                  construct='%s:verdict-position' % K.name,
+                  message='%s.can_launch answers `%s`: the verdict is %s, the '
+                  'other launchers (%d of %d) and find_launcher expect it in '
+                  'element %d - the reason string is read as the verdict (a '
+                  'non-empty reason counts as acceptance, the empty reason of '
+                  'an acceptance as refusal)'
+                  % (K.name, short(ts[-1], 40),
+                     'in element %d' % p if p != 'mixed' else
+                     'not always in the same element', counts[vpos],
+                     len(pos), vpos),
+                  loc=f.loc(ts[-1]),
+                  history='a task %s refuses is started by %s all the same; '
+                  'a task it could start goes to the next launcher of the '
+                  'order or fails with `no launch method`' % (K.name, K.name))
+    f, g, call, cnode, head = launcher_loop(prog)
+    rep.saw(f)
+    tests = answer_tests(f, g, call, cnode, head)
+    if not tests:
+        raise AnalysisError('UNRECOGNISED-IDIOM %s: no truth test on the '
+                            'answer of can_launch found' % f.where)
+    for t, i in tests:
+        rep.check(i == vpos, rid, f,
+                  'find_launcher decides on element %d of the answer of '
+                  'can_launch, the verdict' % vpos,
+                  construct='find_launcher:verdict-position',
+                  message='find_launcher tests `%s`, which is bound to element '
+                  '%d of the pair answered by `%s`, but the launchers put the '
+                  'verdict into element %d (%d of %d can_launch methods): the '
+                  'reason string is used as the verdict - a refusal (False, '
+                  '\'more than one rank\') is truthy and selects the launcher, '
+                  'an acceptance (True, \'\') is falsy and skips it'
+                  % (short(t.ast, 30), i, short(call, 40), vpos, counts[vpos],
+                     len(pos)),
+                  loc=f.loc(t.ast),
+                  history='launch order [FORK, MPIRUN], task with 4 ranks on 2 '
+                  'nodes: FORK answers (False, \'more than one rank\'), the '
+                  'reason is taken as acceptance and the task is started as '
+                  'ONE local process; a single-rank task on the agent node, '
+                  'which FORK accepts with (True, \'\'), is passed on')
 
 
 def prepare(prog, rep, rid):
@@ -2625,6 +2871,261 @@ def refuses_by_multiplicity(prog, K):
     return None
 
 
+# launchers whose flavour distributes a total rank count over a plain node
+# list by itself (documented under `undecided`): the command cannot express an
+# uneven placement at all, which rule (d) would report on today's tree.
+TOTAL_ONLY = {'Srun': 'srun gets --ntasks <total> and --nodelist / --nodefile '
+                      'with every node once: slurm distributes the ranks over '
+                      'the nodes itself (block distribution)'}
+
+_NOVAL = object()
+
+
+def _const_eval(e, env):
+    """value of a test when the names of env hold the given constants; _NOVAL
+    when it cannot be told"""
+    if isinstance(e, ast.Constant):
+        return e.value
+    if isinstance(e, ast.Name):
+        return env.get(e.id, _NOVAL)
+    if isinstance(e, ast.UnaryOp) and isinstance(e.op, ast.Not):
+        v = _const_eval(e.operand, env)
+        return _NOVAL if v is _NOVAL else (not v)
+    if isinstance(e, (ast.Tuple, ast.List, ast.Set)):
+        vs = [_const_eval(x, env) for x in e.elts]
+        return _NOVAL if any(v is _NOVAL for v in vs) else tuple(vs)
+    if isinstance(e, ast.BoolOp):
+        vs = [_const_eval(x, env) for x in e.values]
+        if isinstance(e.op, ast.And):
+            if any(v is not _NOVAL and not v for v in vs):
+                return False
+            return _NOVAL if any(v is _NOVAL for v in vs) else True
+        if any(v is not _NOVAL and v for v in vs):
+            return True
+        return _NOVAL if any(v is _NOVAL for v in vs) else False
+    if isinstance(e, ast.Compare) and len(e.ops) == 1:
+        l = _const_eval(e.left, env)
+        r = _const_eval(e.comparators[0], env)
+        if l is _NOVAL or r is _NOVAL:
+            return _NOVAL
+        op = e.ops[0]
+        try:
+            if type(op) in _OPS:
+                return _OPS[type(op)](l, r)
+            if isinstance(op, ast.In):
+                return l in r
+            if isinstance(op, ast.NotIn):
+                return l not in r
+            if isinstance(op, ast.Is):
+                return l is r or (l == r and type(l) is type(r))
+            if isinstance(op, ast.IsNot):
+                return not (l is r or (l == r and type(l) is type(r)))
+        except TypeError:
+            return _NOVAL
+    return _NOVAL
+
+
+def const_actuals(caller, call, callee):
+    """{parameter of callee: constant} for the parameters which get a constant
+    at this call (literally, through a once-bound local, or by default)"""
+    env = {}
+    a = callee.node.args
+    pos = a.posonlyargs + a.args
+    for p, dflt in zip(pos[len(pos) - len(a.defaults):], a.defaults):
+        if isinstance(dflt, ast.Constant):
+            env[p.arg] = dflt.value
+    for p, dflt in zip(a.kwonlyargs, a.kw_defaults):
+        if isinstance(dflt, ast.Constant):
+            env[p.arg] = dflt.value
+    for p, v in param_map(caller, call, callee):
+        if isinstance(v, ast.Name):
+            o = _once(caller, v.id)
+            v = o if o is not None else v
+        if isinstance(v, ast.Constant):
+            env[p] = v.value
+        else:
+            env.pop(p, None)
+    if any(isinstance(x, ast.Starred) for x in call.args) or \
+            any(k.arg is None for k in call.keywords):
+        return {}
+    return env
+
+
+def distinct_writes(used, f):
+    """[(site, conds)]: a collection which names every node of the placement
+    once - and nothing with it - goes into the command / a file of it"""
+    out = []
+    for site, coll in plain_node_lists(f):
+        if not value_flows(used, f.where, f, site):
+            continue
+        cs = conds_at(f, site)
+        for c2 in distinct_sources(f, coll):
+            out.append((site, cs | c2))
+    return out
+
+
+def lift_conds(G, f0, f, conds, depth=3):
+    """the condition sets, in terms of get_launch_cmds `f0`, under which the
+    conditions `conds` of function f hold: tests on parameters of f are decided
+    with the constants of each call"""
+    if f.where == f0.where:
+        return [(set(conds), None)]
+    if depth == 0:
+        return []
+    out = []
+    params = set(f.params)
+    for caller, call, callee in G.calls:
+        if callee.where != f.where:
+            continue
+        env = const_actuals(caller, call, f)
+        rest, feasible = set(), True
+        for text, pol in conds:
+            try:
+                e = ast.parse(text, mode='eval').body
+            except SyntaxError:
+                continue
+            names = {n.id for n in ast.walk(e) if isinstance(n, ast.Name)}
+            if not names & params:
+                if names <= {'self'}:
+                    rest.add((text, pol))          # configuration: same object
+                continue
+            v = _const_eval(e, env)
+            if v is _NOVAL:
+                raise AnalysisError(
+                    'UNRECOGNISED-IDIOM %s: `%s` of %s decides what the host '
+                    'file holds and the call `%s` does not pass a constant'
+                    % (caller.where, text, f.qual, short(call, 50)))
+            if bool(v) != pol:
+                feasible = False
+                break
+        if not feasible:
+            continue
+        for up, _ in lift_conds(G, f0, caller, conds_at(caller, call),
+                                depth - 1):
+            out.append((up | rest, call))
+    return out
+
+
+_COUNT_ONLY = {'len', 'sum', 'str', 'int', 'float', 'set', 'frozenset',
+               'sorted', 'list', 'tuple', 'repr'}
+
+
+def multiplicity_carriers(prog, K, G, f0, writer):
+    """[(node, conds)]: values of the command of f0 which may tell how many
+    ranks go to which node - liberal: any call on something of the slots other
+    than len() / sum() / a re-packing, a per-slot collection written as it is,
+    a per-node count; not the writer of the node list itself"""
+    w0 = f0.where
+    out = []
+
+    def from_slots(e):
+        for n in walk(e, nested=True):
+            if const_key(n) in ('slots',) + PLACE_KEYS:
+                return True
+            if isinstance(n, ast.Name) and isinstance(n.ctx, ast.Load) and \
+                    n.id not in ('self', 'cls') and (
+                        place_derived(f0, n.id) or
+                        G.from_placement(w0, n.id)):
+                return True
+        return False
+
+    for txt, v, site in format_sites(f0.node):
+        for l, via in leaves(f0, v):
+            ok = False
+            if isinstance(l, ast.Call):
+                d = dotted(l.func) or ''
+                h = prog.resolve_call(f0, l, K)
+                if h is not None and h.where == writer.where:
+                    ok = False
+                elif d in _COUNT_ONLY:
+                    ok = False
+                elif isinstance(l.func, ast.Attribute) and \
+                        l.func.attr == 'join' and len(l.args) == 1:
+                    cn = cfg_node_of(f0, l)
+                    k = site_kind(f0, l.args[0], cn.id if cn else None)
+                    ok = k in (PER_SLOT, ADJACENT) or (
+                        k is None and from_slots(l.args[0]) and
+                        not distinct_sources(f0, l.args[0]))
+                else:
+                    ok = from_slots(l)
+            elif isinstance(l, ast.Subscript):
+                ok = from_slots(l) and not has_key_below(l, 'ranks')
+            if ok:
+                out.append((l, conds_at(f0, l, via) | conds_at(f0, site)))
+    for site, coll in plain_node_lists(f0):
+        cn = cfg_node_of(f0, site)
+        if site_kind(f0, coll, cn.id if cn else None) in (PER_SLOT, ADJACENT):
+            out.append((site, conds_at(f0, site)))
+    return out
+
+
+def total_only(prog, rep, rid, K, G, used, f0):
+    """rule (d) of R09.8; returns the number of findings"""
+    nbad = 0
+    contexts = []
+    for w in sorted(G.funcs):
+        f = G.funcs[w]
+        for site, conds in distinct_writes(used, f):
+            for up, call in lift_conds(G, f0, f, conds):
+                contexts.append((f, site, up, call))
+    if not contexts:
+        return 0
+    totals = []
+    for txt, v, site in format_sites(f0.node):
+        m = RANK_OPTS.search(txt)
+        if m and counts_ranks(f0, v) and counts_nodes(f0, v) is None:
+            totals.append((m.group(1), site, conds_at(f0, site)))
+    if not totals:
+        return 0
+    if K.name in TOTAL_ONLY:
+        rep.info(rid, f0, '%s: total rank count with a node list which names '
+                 'every node once - not reported: %s'
+                 % (K.name, TOTAL_ONLY[K.name]), f0.loc())
+        return 0
+    reported = set()
+    for f, site, up, call in contexts:
+        tot = [t for t in totals if compatible(up, t[2])]
+        if not tot:
+            continue
+        carriers = [c for c in multiplicity_carriers(prog, K, G, f0, f)
+                    if compatible(up, c[1]) and compatible(c[1], up)]
+        if carriers:
+            continue
+        guard = multiplicity_guard(f0)
+        rf = refuses_by_multiplicity(prog, K)
+        if guard is not None or rf is not None:
+            raise AnalysisError(
+                'UNRECOGNISED-IDIOM %s: host list without rank counts next to '
+                'a total rank count, and `%s` tests the multiplicity of the '
+                'nodes' % (f0.where, guard or rf.qual))
+        at = call if call is not None else site
+        key = (f.where, unparse(at))
+        if key in reported:
+            continue
+        reported.add(key)
+        nbad += 1
+        when = ' and '.join(sorted('%s%s' % ('' if p else 'not ', t)
+                                   for t, p in up))
+        rep.bad(rid, f0, '%s:%s:total-only' % (K.name, tot[0][0]),
+                '%s.%s gives `%s` the total number of ranks and%s the host '
+                '%s written by `%s`%s names every node of the placement once, '
+                'without its number of ranks; no other value of the command '
+                'on this branch says how many ranks go to which node: the '
+                'launcher spreads the ranks evenly / round robin whatever the '
+                'scheduler decided'
+                % (K.name, f0.name, tot[0][0],
+                   ' (when %s)' % when if when else '',
+                   'file' if call is not None else 'list',
+                   short(site, 50),
+                   ' (called as `%s`)' % short(call, 50)
+                   if call is not None else ''),
+                f0.loc(at),
+                history='4 ranks, 3 placed on node1 and 1 on node2: the host '
+                'file holds `node1\\nnode2`, the command asks for 4 processes '
+                '- they start 2 + 2')
+    return nbad
+
+
 def r09_8(prog, rep, classes, rid='R09.8', minimum=13, floor=8):
     rep.rule(rid, 'the number of processes a command asks for is the number '
              'of slots / ranks of the task: no value of the command is a '
@@ -2742,6 +3243,9 @@ def r09_8(prog, rep, classes, rid='R09.8', minimum=13, floor=8):
                                 'per entry - 2 processes for 3 ranks'
                                 % l.value)
                         break
+        # (d) total rank count and a host collection which names every node
+        #     once, nothing else telling how many ranks go where
+        nbad += total_only(prog, rep, rid, K, G, used, f0)
         total += nopt
         if not nbad:
             rep.ok(rid, f0, '%s: %d rank count option(s), %d quotient(s) of '
@@ -2754,6 +3258,424 @@ def r09_8(prog, rep, classes, rid='R09.8', minimum=13, floor=8):
                             'all launchers (expected >= %d): the recogniser '
                             'no longer sees how the commands are formatted'
                             % (total, floor))
+
+
+# ------------------------------------------------------------------------------
+# R09.10  files written for a command are truncated
+#
+_OPENERS = {'open', 'ru.ru_open', 'ru_open', 'io.open', 'codecs.open'}
+
+
+def open_calls(f):
+    """[(call, file expr, mode expr or None)] of the file opens below f"""
+    for c in calls_in(f.node, nested=True):
+        d = dotted(c.func)
+        if d in _OPENERS:
+            yield c, kwarg(c, 'file', 0), kwarg(c, 'mode', 1)
+        elif isinstance(c.func, ast.Attribute) and c.func.attr == 'open' and \
+                (d or '').split('.')[0] not in ('os', 'webbrowser', 'shelve',
+                                                'dbm', 'tarfile', 'zipfile'):
+            yield c, c.func.value, kwarg(c, 'mode', 0)
+
+
+def mode_values(f, e):
+    """the constant strings a mode expression may hold (through locals and
+    conditional expressions), None if one of them is not a constant"""
+    if e is None:
+        return ['r']
+    out = []
+    for l, _ in leaves(f, e, wrappers=False):
+        if isinstance(l, ast.Constant) and isinstance(l.value, str):
+            out.append(l.value)
+        else:
+            return None
+    return out
+
+
+def r09_10(prog, rep, classes, rid='R09.10', minimum=13):
+    rep.rule(rid, 'a file which a launcher writes while it generates a command '
+             '(host / rank / resource set / node file) is opened in a '
+             'truncating mode: what an earlier generation left under the same '
+             'name is not part of the file (history independence through the '
+             'file system)', minimum=minimum)
+    done = set()
+    for K in classes:
+        G = graph(prog, K, QUERY, implicit=True, control=True)
+        rep.ok(rid, K, '%s: %d file open(s) in the %d functions its query '
+               'methods reach' % (K.name, sum(len(list(open_calls(h)))
+                                              for h in G.funcs.values()),
+                                  len(G.funcs)))
+        for w in sorted(G.funcs):
+            if w in done:
+                continue
+            done.add(w)
+            f = G.funcs[w]
+            opens = list(open_calls(f))
+            if not opens:
+                continue
+            rep.saw(f)
+            g = cfg_of(f)
+            smap = I.stmt_node_map(g)
+            info = []
+            for c, name, mode in opens:
+                ms = mode_values(f, mode)
+                if ms is None:
+                    raise AnalysisError(
+                        'UNRECOGNISED-IDIOM %s: cannot tell the mode of `%s`'
+                        % (f.where, short(c, 50)))
+                info.append((c, name, ms, smap.get(id(c)),
+                             stable_text(f, name) if name is not None
+                             else None))
+            for c, name, ms, cn, txt in info:
+                if all(not set(m) & set('wax+') for m in ms):
+                    continue                               # only read
+                keeps = [m for m in ms if 'w' not in m]
+                if keeps and cn is not None and txt is not None:
+                    # the same file was created anew on every path to here
+                    via = [cn2.id for c2, _, ms2, cn2, txt2 in info
+                           if c2 is not c and cn2 is not None and txt2 == txt
+                           and all('w' in m for m in ms2)]
+                    if via and must_pass(g, g.entry.id, cn.id, via):
+                        keeps = []
+                rep.check(not keeps, rid, f,
+                          '%s opens %s with mode %s: the file is created '
+                          'anew' % (f.qual, short(name, 30) if name is not None
+                                    else '?', '/'.join(repr(m) for m in ms)),
+                          construct=c,
+                          message='%s opens `%s` with mode %r: the file is not '
+                          'truncated, so a command generated again for the same '
+                          'file name (the name derives from the task uid) '
+                          'refers to a file which still holds what the earlier '
+                          'generation wrote%s - the command for a task depends '
+                          'on the commands generated before it, and it names '
+                          'nodes / ranks of the earlier placement'
+                          % (f.qual, short(name, 40) if name is not None
+                             else '?', keeps[0] if keeps else '',
+                             ' (mode \'x\': the second generation fails)'
+                             if keeps and 'x' in keeps[0] else ''),
+                          loc=f.loc(c),
+                          history='task t placed on node1, launch fails, t is '
+                          're-placed on node2 and %s runs again: the file '
+                          'holds the lines for node1 followed by the lines for '
+                          'node2 (duplicate rank ids, a node outside the '
+                          'placement)' % f.qual)
+
+
+# ------------------------------------------------------------------------------
+# R09.11  an id cursor advances by the number of ids handed out
+#
+def _parents(root):
+    par = {}
+    for n in ast.walk(root):
+        for c in ast.iter_child_nodes(n):
+            par[id(c)] = n
+    return par
+
+
+def _n_stores(f, name):
+    return sum(1 for n in walk(f.node, nested=True)
+               if isinstance(n, ast.Name) and n.id == name and
+               isinstance(n.ctx, (ast.Store, ast.Del)))
+
+
+def _once(f, name):
+    """value of the only binding of local `name` (a plain assignment)"""
+    ds = defs_of(f, name)
+    if len(ds) == 1 and _n_stores(f, name) == 1:
+        return ds[0]
+    return None
+
+
+def _range_width(it):
+    """n of range(n) / range(0, n), else None"""
+    if isinstance(it, ast.Call) and dotted(it.func) == 'range' and \
+            not it.keywords:
+        if len(it.args) == 1:
+            return it.args[0]
+        if len(it.args) == 2 and isinstance(it.args[0], ast.Constant) and \
+                it.args[0].value == 0:
+            return it.args[1]
+    return None
+
+
+def canon_count(f, e, _seen=()):
+    """canonical text of a count: once-bound locals replaced by their value,
+    len() of a comprehension without filter by the length of what it iterates
+    (range(n) -> n), len() of a local holding a path by len(path)"""
+    if isinstance(e, ast.Constant):
+        return repr(e.value)
+    if isinstance(e, ast.Name) and e.id not in _seen:
+        v = _once(f, e.id)
+        if v is not None:
+            return canon_count(f, v, _seen + (e.id,))
+        return e.id
+    if is_len(e):
+        a = e.args[0]
+        for _ in range(4):
+            if isinstance(a, ast.Name) and a.id not in _seen:
+                v = _once(f, a.id)
+                if v is None:
+                    break
+                _seen = _seen + (a.id,)
+                a = v
+            elif isinstance(a, ast.Call) and isinstance(a.func, ast.Name) and \
+                    a.func.id in ('list', 'tuple') and len(a.args) == 1:
+                a = a.args[0]
+            else:
+                break
+        if isinstance(a, (ast.ListComp, ast.GeneratorExp)) and \
+                len(a.generators) == 1 and not a.generators[0].ifs:
+            it = a.generators[0].iter
+            n = _range_width(it)
+            if n is not None:
+                return canon_count(f, n, _seen)
+            return canon_count(f, ast.Call(func=ast.Name(id='len',
+                                                         ctx=ast.Load()),
+                                           args=[it], keywords=[]), _seen)
+        return 'len(%s)' % unparse(a)
+    return unparse(e)
+
+
+_COLLECTORS = ('append', 'extend', 'add', 'insert', 'write', 'writelines',
+               'update', 'setdefault', 'appendleft')
+
+
+def id_cursors(f):
+    """cursors of f which hand out consecutive integer ids in a loop:
+    [(name, step stmt, step expr, loop ast, width expr or None, use nodes)].
+    A cursor is a local which is initialised with an integer constant in front
+    of a loop, advanced by exactly one `c += step` in that loop, and whose
+    value - as it is, or as `c + r` for r in range(n) - goes, in the iteration
+    which also advances it, into something collected over the iterations.
+    width None: one id per iteration."""
+    g = cfg_of(f)
+    smap = I.stmt_node_map(g)
+    par = _parents(f.node)
+    out = []
+    steps = {}
+    for n in walk(f.node):
+        c, step = None, None
+        if isinstance(n, ast.AugAssign) and isinstance(n.op, ast.Add) and \
+                isinstance(n.target, ast.Name):
+            c, step = n.target.id, n.value
+        elif isinstance(n, ast.Assign) and len(n.targets) == 1 and \
+                isinstance(n.targets[0], ast.Name) and \
+                isinstance(n.value, ast.BinOp) and \
+                isinstance(n.value.op, ast.Add):
+            t = n.targets[0].id
+            l, r = n.value.left, n.value.right
+            if isinstance(l, ast.Name) and l.id == t:
+                c, step = t, r
+            elif isinstance(r, ast.Name) and r.id == t:
+                c, step = t, l
+        if c is not None:
+            steps.setdefault(c, []).append((n, step))
+    for c, sts in sorted(steps.items()):
+        if len(sts) != 1:
+            continue
+        stmt, step = sts[0]
+        sn = smap.get(id(stmt))
+        if sn is None or not sn.loops:
+            continue
+        L = g.nodes[sn.loops[-1]]
+        if L.kind not in ('for', 'while'):
+            continue
+        body = g.loop_body[L.id]
+        inits = [n for n in walk(f.node, nested=True)
+                 if isinstance(n, ast.Assign) and n is not stmt and
+                 any(isinstance(t, ast.Name) and t.id == c for t in n.targets)]
+        if not inits or _n_stores(f, c) != len(inits) + 1:
+            continue
+        okinit = True
+        for a in inits:
+            an = smap.get(id(a))
+            if an is None or an.id in body or not (
+                    isinstance(a.value, ast.Constant) and
+                    isinstance(a.value.value, int) and
+                    not isinstance(a.value.value, bool)):
+                okinit = False
+        if not okinit:
+            continue
+        # uses of the cursor in the loop
+        widths, uses, plain = [], [], False
+        skip = False
+        for u in walk(L.ast, nested=True):
+            if not (isinstance(u, ast.Name) and u.id == c and
+                    isinstance(u.ctx, ast.Load)):
+                continue
+            if any(m is u for m in walk(stmt, nested=True)):
+                continue
+            p = par.get(id(u))
+            # tests read the cursor, they do not hand it out
+            q, in_test = u, False
+            while q is not None and not isinstance(q, ast.stmt):
+                pq = par.get(id(q))
+                if isinstance(pq, (ast.If, ast.While)) and q is pq.test or \
+                        isinstance(pq, ast.Assert) or \
+                        isinstance(pq, ast.comprehension) and q in pq.ifs or \
+                        isinstance(pq, ast.IfExp) and q is pq.test:
+                    in_test = True
+                q = pq
+            if in_test:
+                continue
+            if isinstance(p, ast.BinOp):
+                o = p.right if p.left is u else p.left
+                w = None
+                if isinstance(p.op, ast.Add) and isinstance(o, ast.Name):
+                    # o runs over range(n) in a loop / comprehension inside L
+                    for m in walk(L.ast, nested=True):
+                        if isinstance(m, (ast.For, ast.comprehension)) and \
+                                m is not L.ast and \
+                                isinstance(m.target, ast.Name) and \
+                                m.target.id == o.id and \
+                                _n_stores(f, o.id) == 1:
+                            w = _range_width(m.iter)
+                if w is not None:
+                    widths.append(w)
+                    uses.append(u)
+                    continue
+                if isinstance(p.op, ast.Mod) and p.right is u or \
+                        isinstance(p.op, ast.Mod) and \
+                        isinstance(p.right, ast.Tuple):
+                    pass                           # '%d' % c : plain use
+                else:
+                    skip = True                    # offset arithmetic
+                    break
+            plain = True
+            uses.append(u)
+        if skip or not uses:
+            continue
+        # handed out = collected over the iterations, in the iteration which
+        # also advances the cursor
+        tainted, collected, same_iter = set(), False, False
+        back = [e for e in g.pred[L.id] if e.back]     # (next iteration of L)
+        todo = list(uses)
+        seen_st = set()
+        while todo:
+            u = todo.pop()
+            s = enclosing_simple_stmt(f.node, u)
+            if s is None or id(s) in seen_st:
+                continue
+            seen_st.add(id(s))
+            cn = smap.get(id(s))
+            if cn is None:
+                for m in walk(s, nested=True):
+                    cn = smap.get(id(m))
+                    if cn is not None:
+                        break
+            if cn is None or cn.id not in body:
+                continue
+            if sn.id in g.reachable(cn.id, skip_edges=back) or \
+                    cn.id in g.reachable(sn.id, skip_edges=back):
+                same_iter = True
+            names = []
+            if isinstance(s, ast.Assign):
+                for t in s.targets:
+                    if isinstance(t, ast.Name):
+                        names.append(t.id)
+                        if any(isinstance(m, ast.Name) and m.id == t.id
+                               for m in walk(s.value, nested=True)):
+                            collected = True       # x = x + ..
+                    else:
+                        collected = True           # x[k] = .. / x.a = ..
+            elif isinstance(s, ast.AugAssign):
+                collected = True
+            elif isinstance(s, ast.Expr) and isinstance(s.value, ast.Call) \
+                    and isinstance(s.value.func, ast.Attribute) and \
+                    s.value.func.attr in _COLLECTORS:
+                collected = True
+            elif isinstance(s, ast.Expr) and isinstance(
+                    s.value, (ast.Yield, ast.YieldFrom)):
+                collected = True
+            for nm in names:
+                if nm == c or nm in tainted:
+                    continue
+                tainted.add(nm)
+                for m in walk(L.ast, nested=True):
+                    if isinstance(m, ast.Name) and m.id == nm and \
+                            isinstance(m.ctx, ast.Load):
+                        todo.append(m)
+        if not (collected and same_iter):
+            continue
+        if widths:
+            ws = {canon_count(f, w) for w in widths}
+            if len(ws) != 1:
+                raise AnalysisError(
+                    'UNRECOGNISED-IDIOM %s: the cursor `%s` is the base of '
+                    'id ranges of different widths (%s)'
+                    % (f.where, c, ', '.join(sorted(ws))))
+            out.append((c, stmt, step, L.ast, widths[0], uses))
+        elif plain:
+            out.append((c, stmt, step, L.ast, None, uses))
+    return out
+
+
+def r09_11(prog, rep, classes, rid='R09.11', minimum=13):
+    rep.rule(rid, 'a cursor which hands out consecutive ids in a loop of a '
+             'launcher (rank ids of a rank file / resource set file) advances, '
+             'per iteration, by the number of ids the iteration used: `c += n` '
+             'where the iteration names c .. c + n - 1 (one id: `c += 1`)',
+             minimum=minimum)
+    done = set()
+    for K in classes:
+        f0 = prog.find_method(K, 'get_launch_cmds')
+        if f0 is None:
+            continue
+        G = graph(prog, K, ['get_launch_cmds'], implicit=False, control=False)
+        # (a launcher which numbers its ranks with enumerate() has no cursor:
+        # one neutral obligation per launcher keeps the count stable)
+        rep.ok(rid, f0, '%s: id cursors of the %d function(s) which build the '
+               'command are checked' % (K.name, len(G.funcs)), f0.loc())
+        for w in sorted(G.funcs):
+            if w in done:
+                continue
+            done.add(w)
+            f = G.funcs[w]
+            for c, stmt, step, loop, width, uses in id_cursors(f):
+                rep.saw(f)
+                s_txt = canon_count(f, step)
+                w_txt = canon_count(f, width) if width is not None else '1'
+                s_const = isinstance(step, ast.Constant) or \
+                    re.fullmatch(r'-?\d+', s_txt) is not None
+                w_const = re.fullmatch(r'-?\d+', w_txt) is not None
+                if width is None and not s_const:
+                    # one value per iteration, advanced by a computed amount:
+                    # an offset into something, not an id counter
+                    continue
+                ok = s_txt == w_txt
+                if not ok and not s_const and not w_const and not (
+                        s_txt.startswith('len(') and w_txt.startswith('len(')):
+                    raise AnalysisError(
+                        'UNRECOGNISED-IDIOM %s: cannot tell whether the step '
+                        '`%s` of the id cursor `%s` is the number of ids used '
+                        'per iteration (`%s`)' % (f.where, s_txt, c, w_txt))
+                rep.check(ok, rid, f,
+                          '%s: id cursor `%s` advances by %s, the number of '
+                          'ids used per iteration' % (f.qual, c, s_txt),
+                          construct='%s:cursor:%s' % (f.name, c),
+                          message='%s hands out %s id(s) per iteration of the '
+                          'loop over `%s` (%s) but advances the cursor `%s` '
+                          'by `%s`: the ids of successive iterations %s - the '
+                          'file names some rank twice / not at all, so the '
+                          'command starts a number of processes different '
+                          'from the number of ranks, or a rank on the cores '
+                          'of another'
+                          % (f.qual, w_txt,
+                             short(loop.iter if isinstance(loop, ast.For)
+                                   else loop.test, 30),
+                             '`%s + r for r in range(%s)`' % (c, short(width,
+                                                                       30))
+                             if width is not None else 'the value of `%s`' % c,
+                             c, short(step, 30),
+                             'overlap or leave gaps'),
+                          loc=f.loc(stmt),
+                          history='two resource sets / slots with 2 ranks '
+                          'each and a step of 1: ids 0,1 and then 1,2 - rank '
+                          '1 is defined twice (on two core sets), rank 3 '
+                          'never; 4 ranks get 3 ids'
+                          if width is not None else
+                          '3 slots: the ids are 0, %s, ... instead of 0, 1, 2'
+                          % s_txt)
 
 
 # ------------------------------------------------------------------------------
@@ -2777,7 +3699,16 @@ def run(prog, rep, tier):
         'command is an average of ranks over nodes, no rank count option is '
         'fed with the number of distinct nodes, no constant rank count is '
         'combined with a de-duplicated host list under compatible '
-        'configuration tests.')
+        'configuration tests; a total rank count is not combined with a host '
+        'file / list naming every node once unless another value of the '
+        'command on that branch derives from the slots (per-node counts, '
+        'per-rank lists); the test which decides in find_launcher reads the '
+        'element of the can_launch answer in which the launchers put their '
+        'verdict; every file opened for writing by code the query methods '
+        'reach is truncated (or was, on every path, by an earlier open of the '
+        'same name); an id cursor (`c = 0` ... `c += step` in a loop, value '
+        'collected as `c` or `c + r for r in range(n)`) advances by the '
+        'number of ids used per iteration.')
     rep.undecided = ('option semantics of each MPI flavour (whether -host, '
         '-rf, --nodelist, ERF syntax do what the placement says), may-depend '
         'only: a launcher which names the nodes on one of its branches passes '
@@ -2786,7 +3717,12 @@ def run(prog, rep, tier):
         'rank count (Srun) is distributed as placed; writes of find_launcher '
         'into attributes of the launcher objects themselves (R09.1 covers '
         'the launchers\' own methods only); `alias += [..]` on a local alias '
-        'of the launch order.')
+        'of the launch order; the format of files written by library helpers '
+        '(ru.create_hostfile: counted `host N` lines vs one line per rank with '
+        'impaired=True - both carry the multiplicity, which of them mpirun '
+        'parses is knowledge about mpirun); Srun: total rank count with a '
+        'plain node list (exempt from R09.8 d, see TOTAL_ONLY); a rank id '
+        'which is never advanced (no cursor left to check).')
     rep.assumptions = [
         'no monkey patching / setattr with computed names on launcher '
         'objects; launchers outside the package are not analysed',
@@ -2812,6 +3748,9 @@ def run(prog, rep, tier):
     rep.attempt(r09_6, prog, rep, classes)
     rep.attempt(r09_7, prog, rep)
     rep.attempt(r09_8, prog, rep, classes)
+    rep.attempt(r09_9, prog, rep, classes)
+    rep.attempt(r09_10, prog, rep, classes)
+    rep.attempt(r09_11, prog, rep, classes)
     if tier == 'thorough':
         base = prog.cls(*LM_BASE)
         extra = [k for k in prog.subclasses(base, strict=True)
@@ -3125,6 +4064,109 @@ SILENT += [
         (_L + 'mpiexec.py', "        cmd_options = '-np %d ' % sum(host_slots.values())", "        cmd_options = '-np %d ' % len(slots)")]),
     dict(name='mpiexec pals: ranks per node through a local, maximum kept', edits=[
         (_L + 'mpiexec.py', "            cmd_options += '--ppn %d '           % max(host_slots.values()) + \\\n", "            per_node     = list(host_slots.values())\n            cmd_options += '--ppn %d '           % max(per_node) + \\\n")]),
+]
+
+
+# ------------------------------------------------------------------------------
+# round 4: R09.9 (g1), R09.10 (g2), R09.11 (g6), R09.8 rule d (g3)
+#
+_FL_ASK   = "            lm_can_launch, err_message = launcher.can_launch(task)\n"
+_ME       = _L + 'mpiexec.py'
+_JS       = _L + 'jsrun.py'
+_RF_OPEN  = "        with ru.ru_open(rf_name, 'w') as fout:\n            fout.write(rf_str)\n"
+_HF_OPEN  = "        with ru.ru_open(hf_name, 'w') as fout:\n            fout.write(hf_str)\n"
+_RS_OPEN  = "        with ru.ru_open(rs_name, 'w') as fout:\n            fout.write(rs_str)\n"
+_JS_IDS   = "            rank_ids      = [str(r + base_id) for r in range(ranks_per_rs)]\n            base_id      += ranks_per_rs\n"
+_HYDRA    = "            hostfile = self._get_host_file(slots, uid, sbox, mode=2)\n"
+_MODE0    = "        if mode == 0:\n            hf_str = '%s\\n' % '\\n'.join(list(host_slots.keys()))\n"
+
+MUTATIONS += [
+    dict(name='R09.9 find_launcher unpacks the answer as (reason, verdict) (seed C09-g1)', rules=('R09.9',), edits=[
+        (_R, _FL_ASK, "            err_message, lm_can_launch = launcher.can_launch(task)\n")]),
+    dict(name='R09.9 answer kept whole, the verdict read from element 1', rules=('R09.9',), edits=[
+        (_R, _FL_ASK, "            answer = launcher.can_launch(task)\n            lm_can_launch = answer[1]\n            err_message   = answer[0]\n")]),
+    dict(name='R09.9 find_launcher tests the last element of the answer', rules=('R09.9',), edits=[
+        (_R, _FL_ASK, "            answer = launcher.can_launch(task)\n            lm_can_launch, err_message = answer[-1], answer[0]\n")]),
+    dict(name='R09.9 rsh answers (reason, verdict) on acceptance', rules=('R09.9',), edits=[
+        (_L + 'rsh.py', "            return False, 'cannot launch MPI tasks'\n\n        return True, ''\n", "            return False, 'cannot launch MPI tasks'\n\n        return '', True\n")]),
+    dict(name='R09.9 fork answers (reason, verdict) everywhere', rules=('R09.9',), edits=[
+        (_L + 'fork.py', "            return False, 'more than one rank'\n", "            return 'more than one rank', False\n"),
+        (_L + 'fork.py', "            return False, 'not on localhost'\n", "            return 'not on localhost', False\n"),
+        (_L + 'fork.py', "            return False, 'cannot launch MPI tasks'\n", "            return 'cannot launch MPI tasks', False\n")]),
+    dict(name='R09.10 mpiexec rank file opened for append (seed C09-g2)', rules=('R09.10',), edits=[
+        (_ME, _RF_OPEN, _RF_OPEN.replace("'w'", "'a'"))]),
+    dict(name='R09.10 mpiexec host file opened for append, mode in a local', rules=('R09.10',), edits=[
+        (_ME, _HF_OPEN, "        how = 'a'\n" + _HF_OPEN.replace("'w'", "how"))]),
+    dict(name='R09.10 jsrun resource set file opened r+ (overwritten in place, longer old tail stays)', rules=('R09.10',), edits=[
+        (_JS, _RS_OPEN, _RS_OPEN.replace("'w'", "'r+'"))]),
+    dict(name='R09.10 srun node file opened for append', rules=('R09.10',), edits=[
+        (_L + 'srun.py', "with ru.ru_open(nodefile, 'w') as fout:", "with ru.ru_open(nodefile, mode='a') as fout:")]),
+    dict(name='R09.10 mpiexec rank file created exclusively (second generation fails)', rules=('R09.10',), edits=[
+        (_ME, _RF_OPEN, _RF_OPEN.replace("'w'", "'x'"))]),
+    dict(name='R09.11 jsrun rank id base advanced by one per resource set (seed C09-g6)', rules=('R09.11',), edits=[
+        (_JS, "            base_id      += ranks_per_rs\n", "            base_id      += 1\n")]),
+    dict(name='R09.11 jsrun rank id base advanced by the number of gpu sets', rules=('R09.11',), edits=[
+        (_JS, "            base_id      += ranks_per_rs\n", "            base_id      += len(slot_ranks['gpus'])\n")]),
+    dict(name='R09.11 jsrun rank id base: expanded assignment, wrong step', rules=('R09.11',), edits=[
+        (_JS, "            base_id      += ranks_per_rs\n", "            base_id       = base_id + 1\n")]),
+    dict(name='R09.11 mpiexec rank file: rank id advanced by two', rules=('R09.11',), edits=[
+        (_ME, "            rank_id += 1\n", "            rank_id += 2\n")]),
+    dict(name='R09.8 mpiexec hydra: host file without rank counts (seed C09-g3)', rules=('R09.8',), edits=[
+        (_ME, _HYDRA, "            hostfile = self._get_host_file(slots, uid, sbox)\n")]),
+    dict(name='R09.8 mpiexec hydra: host file mode 0 spelled out', rules=('R09.8',), edits=[
+        (_ME, _HYDRA, "            hostfile = self._get_host_file(slots, uid, sbox, 0)\n")]),
+    dict(name='R09.8 mpiexec default flavour: --hostfile without slots=', rules=('R09.8',), edits=[
+        (_ME, "            hostfile     = self._get_host_file(slots, uid, sbox, mode=1)\n", "            hostfile     = self._get_host_file(slots, uid, sbox, mode=0)\n")]),
+    dict(name='R09.8 _get_host_file writes the counts only in mode 1', rules=('R09.8',), edits=[
+        (_ME, "        if mode == 0:\n            hf_str", "        if mode != 1:\n            hf_str")]),
+]
+
+SILENT += [
+    dict(name='find_launcher keeps the answer whole and reads its elements by index', edits=[
+        (_R, _FL_ASK, "            answer = launcher.can_launch(task)\n            lm_can_launch = answer[0]\n            err_message   = answer[1]\n")]),
+    dict(name='find_launcher: answer unpacked from a local', edits=[
+        (_R, _FL_ASK, "            answer = launcher.can_launch(task)\n            lm_can_launch, err_message = answer\n")]),
+    dict(name='find_launcher tests the verdict by subscript', edits=[
+        (_R, _FL_ASK, "            answer = launcher.can_launch(task)\n            lm_can_launch = answer[0]\n            err_message   = answer[1]\n"),
+        (_R, "            if lm_can_launch:\n                return launcher, name\n", "            if answer[0]:\n                return launcher, name\n")]),
+    dict(name='rsh refuses with a formatted reason', edits=[
+        (_L + 'rsh.py', "            return False, 'more than one rank'\n", "            return False, 'more than one rank (%d)' % len(task['slots'])\n")]),
+    dict(name='srun can_launch: verdict computed, reason chosen', edits=[
+        (_L + 'srun.py', "        if not task['description']['executable']:\n            return False, 'no executable'\n\n        return True, ''\n",
+         "        has_exe = bool(task['description']['executable'])\n        return has_exe, '' if has_exe else 'no executable'\n")]),
+    dict(name='mpiexec rank file: mode by keyword, text mode spelled out', edits=[
+        (_ME, _RF_OPEN, _RF_OPEN.replace("'w'", "mode='wt'"))]),
+    dict(name='mpiexec rank file: explicit open / close', edits=[
+        (_ME, _RF_OPEN, "        fout = ru.ru_open(rf_name, 'w')\n        fout.write(rf_str)\n        fout.close()\n")]),
+    dict(name='mpiexec host file: created anew, body appended by a second open', edits=[
+        (_ME, _HF_OPEN, "        with ru.ru_open(hf_name, 'w') as fout:\n            fout.write('')\n        with ru.ru_open(hf_name, 'a') as fout:\n            fout.write(hf_str)\n")]),
+    dict(name='jsrun resource set file: mode in a local', edits=[
+        (_JS, _RS_OPEN, "        rs_mode = 'w'\n" + _RS_OPEN.replace("'w'", "rs_mode"))]),
+    dict(name='jsrun rank id base advanced by the number of ids built', edits=[
+        (_JS, "            base_id      += ranks_per_rs\n", "            base_id      += len(rank_ids)\n")]),
+    dict(name='jsrun rank id base: expanded assignment, count re-read from the slot', edits=[
+        (_JS, "            base_id      += ranks_per_rs\n", "            base_id       = base_id + len(slot_ranks['cores'])\n")]),
+    dict(name='jsrun rank ids one by one, cursor advanced per id', edits=[
+        (_JS, _JS_IDS, "            rank_ids      = []\n            for _r in range(ranks_per_rs):\n                rank_ids.append(str(base_id))\n                base_id  += 1\n")]),
+    dict(name='jsrun rank ids from a range over the cursor, advanced afterwards', edits=[
+        (_JS, _JS_IDS, "            next_id       = base_id + ranks_per_rs\n            rank_ids      = [str(r) for r in range(base_id, next_id)]\n            base_id       = next_id\n")]),
+    dict(name='mpiexec rank file numbered by enumerate', edits=[
+        (_ME, "        rf_str  = ''\n        rank_id = 0\n\n        for slot in slots:\n", "        rf_str  = ''\n\n        for rank_id, slot in enumerate(slots):\n"),
+        (_ME, "            rank_id += 1\n", "")]),
+    dict(name='mpiexec rank file: cursor advanced first, id one less', edits=[
+        (_ME, "        for slot in slots:\n            rf_str += 'rank %d=%s ' % (rank_id, slot['node_name'])\n", "        for slot in slots:\n            this_id = rank_id\n            rank_id = rank_id + 1\n            rf_str += 'rank %d=%s ' % (this_id, slot['node_name'])\n"),
+        (_ME, "            rank_id += 1\n", "")]),
+    dict(name='mpiexec hydra: host file mode passed by position', edits=[
+        (_ME, _HYDRA, "            hostfile = self._get_host_file(slots, uid, sbox, 2)\n")]),
+    dict(name='mpiexec hydra: host file mode through a local', edits=[
+        (_ME, _HYDRA, "            hf_mode  = 2\n            hostfile = self._get_host_file(slots, uid, sbox, mode=hf_mode)\n")]),
+    dict(name='mpiexec pals: host file mode 0 spelled out', edits=[
+        (_ME, "            hostfile     = self._get_host_file(slots, uid, sbox)\n", "            hostfile     = self._get_host_file(slots, uid, sbox, mode=0)\n")]),
+    dict(name='_get_host_file: mode 0 tested by truth, names joined from the dict', edits=[
+        (_ME, _MODE0, "        if not mode:\n            hf_str = '%s\\n' % '\\n'.join(host_slots)\n")]),
+    dict(name='_get_host_file: counted modes first', edits=[
+        (_ME, _MODE0 + "\n        else:\n            hf_str = ''\n            if mode == 1: slots_ref = ' slots='\n            else        : slots_ref = ':'\n\n            for host_name, num_slots in host_slots.items():\n                hf_str += '%s%s%d\\n' % (host_name, slots_ref, num_slots)\n",
+         "        if mode in (1, 2):\n            hf_str = ''\n            slots_ref = ' slots=' if mode == 1 else ':'\n            for host_name, num_slots in host_slots.items():\n                hf_str += '%s%s%d\\n' % (host_name, slots_ref, num_slots)\n\n        else:\n            hf_str = '%s\\n' % '\\n'.join(list(host_slots.keys()))\n")]),
 ]
 
 
